@@ -113,6 +113,7 @@ class Features:
     style_names: bool = True
     enum_first_zero_bias: bool = True
     enum_first_zero: bool = False  # first member is always 0 (keeps recorded finding D4b out of a check)
+    flavour_pairs: bool = True  # sometimes two aliases of one width but different kinds, used the same way (add_flavour_pair)
     long_names: bool = False  # a few identifiers of 29..256 characters
     odd_file_names: bool = False  # `sensor.v2.bitproto`, `my-proto.bitproto` for the file nothing imports
     subdirs: bool = False  # files in sub-directories, imports by relative paths (only checks that address files by File.filename)
@@ -199,6 +200,15 @@ class _Builder:
 
     def base_type(self) -> TBase:
         d = self.draw
+        if d(st.integers(0, 6)) == 3:
+            # the same width in its different kinds (byte / uint8 / int8, bool / uint1 / int1, ...): whatever is keyed by
+            # (kind of definition, width) instead of the type itself meets its collision here
+            w = self._flavour_width = getattr(self, "_flavour_width", None) or d(st.sampled_from([8, 8, 1, 16, 32, 64]))
+            kinds = {8: ["byte", "uint", "int"], 1: ["bool", "uint", "int"]}.get(w, ["uint", "int"])
+            k = d(st.sampled_from(kinds))
+            if k == "int" and not self.feat.signed_nonstd and w == 1:
+                k = "uint"
+            return TBase(k) if k in ("bool", "byte") else TBase(k, w)
         kind = d(st.sampled_from(["bool", "byte", "uint", "uint", "uint", "int", "int"]))
         if kind in ("bool", "byte"):
             return TBase(kind)
@@ -255,6 +265,10 @@ class _Builder:
             return elem
         ext = self.feat.ext_arrays and d(st.integers(0, 3)) == 0
         cap = self.capacity(bits, budget - (16 if ext else 0))
+        last = getattr(self, "_last_cap", None)
+        if last and d(st.integers(0, 2)) == 1 and last * bits <= max(budget - (16 if ext else 0), bits) and (bits > 0 or last <= 40):
+            cap = last  # arrays of equal capacity side by side (what is keyed by capacity + element kind collides here)
+        self._last_cap = cap
         cap_text = None
         cap_const = None
         if self.feat.cap_consts and self.feat.consts and d(st.integers(0, 5)) == 0:
@@ -518,6 +532,8 @@ def units(draw: Any, feat: Optional[Features] = None) -> Unit:
         prune_unused_imports(b.unit)
     if feat.shared_nested_names and feat.nested and feat.enums and draw(st.integers(0, 2)) == 0:
         share_nested_names(draw, b.unit, feat)
+    if feat.flavour_pairs and feat.aliases and draw(st.integers(0, 4)) == 2:
+        add_flavour_pair(draw, b.unit)
     if feat.long_names and draw(st.integers(0, 5)) == 1:
         lengthen_names(draw, b.unit)
     if feat.odd_file_names and draw(st.integers(0, 3)) == 1:
@@ -541,6 +557,41 @@ def units(draw: Any, feat: Optional[Features] = None) -> Unit:
                 if draw(st.integers(0, 9)) == 0 and ref.nbits(m) > 0:
                     m.max_bytes = ref.nbytes(m) + draw(st.sampled_from([0, 0, 1, 7]))
     return b.unit
+
+
+def add_flavour_pair(draw: Any, unit: Unit, file_index: Optional[int] = None) -> bool:
+    """Two aliases of the SAME width but different kind (byte / uint8 / int8, or uint16 / int16 ...), used first in two
+    different messages declared one after the other, and side by side as arrays of equal capacity in one message:
+    whatever the compiler keys by (kind of definition, width) or (capacity, element kind, width) collides here."""
+    from . import scoping
+
+    f = unit.files[draw(st.integers(0, len(unit.files) - 1)) if file_index is None else file_index]
+    taken = {it.name for it in f.items}
+    names = [n for n in ("Flava", "Flavb", "Holda", "Holdb") if n not in taken]
+    if len(names) < 4:
+        return False
+    w = draw(st.sampled_from([8, 8, 8, 16, 32]))
+    kinds = [TBase("byte"), TBase("uint", 8), TBase("int", 8)] if w == 8 else [TBase("uint", w), TBase("int", w)]
+    order = draw(st.permutations(kinds))
+    a = Alias(names[0], order[0])
+    b = Alias(names[1], order[1])
+    cap = draw(st.integers(1, 4))
+    m1 = Message(names[2], False)
+    m1.items += [Field("first", TRef(a.name, a), 1), Field("pad", TBase("uint", draw(st.integers(1, 7))), 2)]
+    m2 = Message(names[3], False)
+    m2.items += [
+        Field("first", TRef(b.name, b), 1),
+        Field("lefts", TArray(TRef(a.name, a), cap), 2),
+        Field("rights", TArray(TRef(b.name, b), cap), 3),
+        Field("mid", TBase("uint", draw(st.integers(1, 12))), 4),
+    ]
+    if draw(st.booleans()):
+        m1, m2 = m2, m1  # (either message may come first)
+    f.items += [a, b, m1, m2]
+    set_parents(unit)
+    if not (scoping.retext(unit) and scoping.names_unique(unit)):
+        raise AssertionError("flavour pair must stay resolvable")
+    return True
 
 
 NAME_LENGTHS = [29, 31, 32, 33, 48, 63, 64, 65, 127, 128, 255, 256]
